@@ -560,7 +560,9 @@ PROPS = {
                     "continuation lines, clause reference-link-in-container-differs; 30k+10k (400k+133k) random strings; the spec.json examples in scope (64, "
                     "and 30 with one definition). Clause inline-link-differs; goldmark's confirmed deviations are attributed by asking the reference to "
                     "reproduce them (switches `Dev`): link-destination-pointy-differs, link-destination-unbalanced-paren-differs, "
-                    "link-title-without-separator-differs, link-destination-control-char-differs, link-label-blank-differs, several-link-deviations-combined. "
+                    "link-title-without-separator-differs, link-destination-control-char-differs, link-label-blank-differs, several-link-deviations-combined "
+                    "(the pointy, unbalanced-paren, title-without-separator and blank-label ones are repaired in /repo - `fixed:` in KNOWN_FINDINGS, package linkfix - "
+                    "and count as violations if they return; control-char and combined stay recorded findings). "
                     "Theorems: link_dest_form_sound, links_not_nested, link_html_balanced.",
         assumptions=["the Lean model GM.Spec.CommonMark is a correct reading of CommonMark 0.31.2 on wellFormed trees (it is the specification side of the comparison)",
                      "GM.Spec.CMLink is a correct reading of CommonMark 0.31.2 sections 6.3, 6.4 (and 6.6 open/closing tags) on documents inside linkOnly (validated on every run against the spec.json examples in scope)",
@@ -862,3 +864,14 @@ PROPS["C01"]["claim"] += (" With extensions in the composed models: convertX nev
 PROPS["C17"]["claim"] += (" Round 2 of gfmx: rectangularity of the composed OUTPUT tree follows from rectangularity of the table records in the block store "
     "(tables_rectangular_of_store, doc_tree_keeps_rectangular); that the block driver with transformers never rewrites the records buildTable wrote "
     "(StoreTablesRect) is stated, evaluated by the driver on every table document of the tie (store and output tree), not proved.")
+
+# ---- session 4, package linkfix (notes/status_linkfix.md): the models follow four repaired defects of the inline link scanner ----
+PROPS["C02"]["claim"] += (" Four deviations of the link scanner confirmed by the spec-side link reference were repaired in /repo and the models follow "
+    "(package linkfix): an unescaped `<` inside a `<...>` destination and a bracket-free destination with a parenthesis left open are rejected (also "
+    "in link reference definitions, which share parseLinkDestination), a title needs white space in front, only an EMPTY second bracket pair makes a "
+    "collapsed reference. Kernel-checked: the model's destination scanner computes exactly what the specification-side scanner of GM.Spec.CMLink "
+    "computes, for every line - the `<...>` form on lines without an inner line ending (model_destination_agrees_with_reference_pointy), the bracket-free "
+    "form on lines whose only white-space / control characters are spaces and line feeds (model_destination_agrees_with_reference_bare; tabs, CR and "
+    "other control characters are the recorded finding link-destination-control-char-differs) - hence accepts exactly the grammar "
+    "(model_pointy_destination_in_grammar, model_bare_destination_balanced with C02Link's completeness theorems). The failing inputs are regression "
+    "cases of the components cmlink (cmlinkFixed) and convert (cvPrescribed, clauses link-*-differs).")
